@@ -28,6 +28,7 @@ TrFeatures   == IsEvent("RxFeatures") /\ InC /\ InD
                 /\ RxFeatures(Ev.args.c, Ev.args.d) /\ Matches
 TrBarrier    == IsEvent("RxBarrier") /\ InC /\ Ev.args.k \in {"match", "other"}
                 /\ RxBarrier(Ev.args.c, Ev.args.k) /\ Matches
+TrReject     == IsEvent("RxBarrierReject") /\ InC /\ RxBarrierReject(Ev.args.c) /\ Matches
 TrErr        == IsEvent("RxErr") /\ InC /\ Ev.args.k \in ErrKinds
                 /\ RxErr(Ev.args.c, Ev.args.k) /\ Matches
 TrPortStatus == IsEvent("RxPortStatus") /\ InC /\ Ev.args.p \in Ports
@@ -40,7 +41,7 @@ TrClose      == IsEvent("Close") /\ InC /\ Close(Ev.args.c) /\ Matches
 TrSendTo     == IsEvent("SendTo") /\ InD /\ SendTo(Ev.args.d) /\ Matches
 TrSendToFail == IsEvent("SendToFail") /\ InD /\ SendToFail(Ev.args.d) /\ Matches
 
-TrNext == \/ TrAccept \/ TrNoise \/ TrFeatures \/ TrBarrier \/ TrErr
+TrNext == \/ TrAccept \/ TrNoise \/ TrFeatures \/ TrBarrier \/ TrReject \/ TrErr
           \/ TrPortStatus \/ TrEchoFail \/ TrEchoFailThen \/ TrDisconnect \/ TrClose
           \/ TrSendTo \/ TrSendToFail
 TrSpec == TrInit /\ [][TrNext]_tvars
